@@ -32,6 +32,11 @@ MASTER_CASES = {
     "second master is a subset": ([["/m/r/a.svg", "/m/r/b.svg"], ["/m/b/a.svg"]], True),
     "second master disjoint": ([["/m/r/a.svg"], ["/m/b/c.svg"]], True),
     "third master differs": ([["/m/r/a.svg"], ["/m/b/a.svg"], ["/m/c/a.svg", "/m/c/z.svg"]], True),
+    # sources given on the command line (additional_srcs) take part in the same checks
+    "command-line source repeats a name from the file": ([["/m/r/a.svg", "/m/r/b.svg"]], True, ["/cli/a.svg"]),
+    "command-line sources repeat each other": ([["/m/r/a.svg"]], True, ["/cli/x/b.svg", "/cli/y/b.svg"]),
+    "command-line source with a new name": ([["/m/r/a.svg"]], False, ["/cli/c.svg"]),
+    "the same file given in the config and on the command line": ([["/m/r/a.svg"]], False, ["/m/r/a.svg"]),
 }
 
 
@@ -41,7 +46,8 @@ def job_masters(jc):
 
     jc.encode(CFG.load)
     case = jc.params["case"]
-    srcs, must_raise = MASTER_CASES[case]
+    srcs, must_raise, *extra = MASTER_CASES[case]
+    additional = tuple(Path(p) for p in extra[0]) if extra else None
     toml = TomlStub()
     names = ["regular", "bold", "black"]
     d = {"color_format": "glyf_colr_1", "axis": {"wght": {"name": "Weight", "default": 400}},
@@ -51,7 +57,7 @@ def job_masters(jc):
     raised = None
     with shims.installed([shims.Shim("nanoemoji.config", "toml", toml, "toml stub"), shims.Shim("nanoemoji.config", "FLAGS", Flags(), "absl FLAGS stub")]):
         try:
-            CFG.load(dest)
+            CFG.load(dest, additional) if additional is not None else CFG.load(dest)
         except Exception as e:  # any exception stops the worker (NameError included)
             raised = e
     jc.paths += 1
